@@ -12,7 +12,8 @@ Local Arguments u16_bytes : simpl never.
 
 (** ** the fragment: result-less blocks entered at an empty operand stack *)
 Definition frame_ok (f : vframe) (j : jump_target) : Prop :=
-  vf_height f = 0%nat /\ vf_label f = None /\ vf_end f = None /\ exists locs, j = JUnknown locs None.
+  vf_height f = 0%nat /\ vf_label f = None /\ vf_end f = None /\
+  exists locs, j = JUnknown locs None /\ (vf_is_if f = true -> locs <> []).
 
 Definition vmode (v : vstate) : Prop :=
   v_unreach v = None \/
@@ -31,7 +32,7 @@ Definition bp_sub (b b' : list jump_target) : Prop :=
 
 Lemma bp_sub_refl ctrls bp : Forall2 frame_ok ctrls bp -> bp_sub bp bp.
 Proof.
-  induction 1 as [|f j ? ? (_ & _ & _ & locs & ->)]; constructor; auto. exists locs, []. rewrite app_nil_r. auto.
+  induction 1 as [|f j ? ? (_ & _ & _ & locs & -> & _)]; constructor; auto. exists locs, []. rewrite app_nil_r. auto.
 Qed.
 Lemma bp_sub_trans a b d : bp_sub a b -> bp_sub b d -> bp_sub a d.
 Proof.
@@ -46,13 +47,13 @@ Lemma bp_sub_update ctrls : forall bp k locs x,
 Proof.
   intros bp k locs x H. revert k. induction H as [|f j ? ? Hf]; intros [|k] E; cbn in E; try discriminate.
   - inversion E; subst. cbn. constructor; [exists locs, [x]; auto|eapply bp_sub_refl; eauto].
-  - cbn. constructor; [|apply IHForall2; exact E]. destruct Hf as (_ & _ & _ & l0 & ->). exists l0, []. rewrite app_nil_r. auto.
+  - cbn. constructor; [|apply IHForall2; exact E]. destruct Hf as (_ & _ & _ & l0 & -> & _). exists l0, []. rewrite app_nil_r. auto.
 Qed.
-Lemma frames_update ctrls : forall bp k locs,
-  Forall2 frame_ok ctrls bp -> Forall2 frame_ok ctrls (update_nth bp k (JUnknown locs None)).
+Lemma frames_update ctrls : forall bp k locs x,
+  Forall2 frame_ok ctrls bp -> Forall2 frame_ok ctrls (update_nth bp k (JUnknown (locs ++ [x]) None)).
 Proof.
-  intros bp k locs H. revert k. induction H as [|f j ? ? Hf]; intros [|k]; cbn; constructor; auto.
-  destruct Hf as (A & B & C & _). repeat split; auto. eexists; eauto.
+  intros bp k locs x H. revert k. induction H as [|f j ? ? Hf]; intros [|k]; cbn; constructor; auto.
+  destruct Hf as (A & B & C & _). repeat split; auto. eexists; split; [reflexivity|]. intros _. destruct locs; discriminate.
 Qed.
 
 Lemma truncate_n_spec nl : forall k s s', truncate_n k s = Some s' -> cwf nl s ->
@@ -79,7 +80,7 @@ Lemma frames_nth ctrls bp k f : Forall2 frame_ok ctrls bp -> nth_error ctrls k =
   vf_label f = None /\ exists locs, nth_error bp k = Some (JUnknown locs None).
 Proof.
   intros H. revert k. induction H as [|g j ? ? Hf]; intros [|k] E; cbn in E; try discriminate.
-  - inversion E; subst. destruct Hf as (_ & B & _ & locs & ->). split; auto. exists locs. reflexivity.
+  - inversion E; subst. destruct Hf as (_ & B & _ & locs & -> & _). split; auto. exists locs. reflexivity.
   - cbn. eauto.
 Qed.
 
@@ -110,14 +111,14 @@ Proof.
   destruct I as [W B L Fr Md]. constructor; cbn; auto.
   - eapply cwf_same; [|exact W]. unfold same_alloc; cbn; tauto.
   - destruct B as [B1 B2 B3]. constructor; cbn; auto.
-  - constructor; auto. repeat split; cbn; auto. eexists; eauto.
+  - constructor; auto. repeat split; cbn; auto. eexists; split; [reflexivity|discriminate].
   - left. exact Hu.
 Qed.
 
 Lemma frames_cons f r bp : Forall2 frame_ok (f :: r) bp ->
   vf_height f = 0%nat /\ vf_label f = None /\ vf_end f = None /\
-  exists locs bp', bp = JUnknown locs None :: bp' /\ Forall2 frame_ok r bp'.
-Proof. intros H. inversion H as [|? j ? bp' (A & B & C & locs & ->) Fr']; subst. splits; auto. exists locs, bp'. auto. Qed.
+  exists locs bp', bp = JUnknown locs None :: bp' /\ Forall2 frame_ok r bp' /\ (vf_is_if f = true -> locs <> []).
+Proof. intros H. inversion H as [|? j ? bp' (A & B & C & locs & -> & D) Fr']; subst. splits; auto. exists locs, bp'. auto. Qed.
 
 (** *** if *)
 Lemma op_if nl cx s v v1 s1 :
@@ -158,9 +159,282 @@ Proof.
   splits; auto.
   - constructor.
     + destruct W2 as [A1 A2 A3 A4 A5]. constructor; try rewrite F3; try rewrite F4; try rewrite F5; try rewrite F7; try rewrite <- En; try rewrite <- Ecs; auto.
-    + eapply (bpwf_add s s1 (cur_off s + 5) [] (all_locs (c_bp s))); auto; try lia. reflexivity.
+    + eapply (bpwf_add s s1 (cur_off s + 5) [] (all_locs (c_bp s))); auto; try lia.
     + rewrite F3. reflexivity.
-    + rewrite F2. constructor; [repeat split; cbn; auto; eexists; eauto|exact Fr].
+    + rewrite F2. constructor; [repeat split; cbn; auto; eexists; split; [reflexivity|discriminate]|exact Fr].
     + left. exact Hu.
-  - eapply (ext_add s s1 _ (cur_off s + 5) [] (all_locs (c_bp s))); eauto; try lia. reflexivity.
+  - eapply (ext_add s s1 _ (cur_off s + 5) [] (all_locs (c_bp s))); eauto; try lia.
+Qed.
+
+(** *** end *)
+Lemma reach_term v : v_unreach v = Some (length (v_ctrls v) - 1)%nat -> v_ctrls v <> [] ->
+  v_reachability v = UnreachableInstruction.
+Proof.
+  intros H Hn. unfold v_reachability. rewrite H. destruct (v_ctrls v) as [|f r]; [contradiction|]. cbn [length].
+  destruct (Nat.ltb_spec (S (length r) - 1 + 1) (S (length r))); [lia|reflexivity].
+Qed.
+
+Lemma handle_end cx s v reach locs bp' :
+  reach = Reachable \/ reach = UnreachableInstruction -> c_bp s = JUnknown locs None :: bp' ->
+  handle_opcode cx s v reach OEnd =
+  let s1 := fold_left (fun acc l => back_patch acc l (cur_off s)) locs (set_bp (set_last s None) bp') in
+  if (length (c_stack s1) =? v_opds v)%nat then Some s1 else None.
+Proof.
+  intros [->| ->] E; unfold handle_opcode; cbv beta iota zeta; cbn [set_last c_bp]; rewrite E; reflexivity.
+Qed.
+
+Lemma mode_reach v : vmode v -> v_reachability v = Reachable \/ v_reachability v = UnreachableInstruction.
+Proof. intros [H|(H & Hn & _)]; [left; apply reach_of_none; auto|right; apply reach_term; auto]. Qed.
+
+Lemma pop_ctrl_inv v f r bp :
+  vmode v -> v_ctrls v = f :: r -> Forall2 frame_ok (f :: r) bp ->
+  forall x, v_pop_ctrl v = Some x ->
+  v_opds v = 0%nat /\ x = (None, vf_is_if f, {| v_opds := 0; v_ctrls := r; v_unreach := None |}).
+Proof.
+  intros Md Ec Fr x H. destruct (frames_cons _ _ _ Fr) as (Fh & Fl & Fe & _).
+  unfold v_pop_ctrl in H. rewrite Ec, Fe in H. cbn [bt_arity v_popn] in H. rewrite Fh in H.
+  destruct (Nat.eqb_spec (v_opds v) 0) as [E0|]; [|discriminate]. split; [exact E0|].
+  inversion H; subst x; clear H. rewrite E0. do 3 f_equal.
+  destruct Md as [->|(Hu & _ & _)]; [reflexivity|]. rewrite Hu, Ec. cbn [length].
+  replace (S (length r) - 1)%nat with (length r) by lia. rewrite Nat.eqb_refl. reflexivity.
+Qed.
+
+Lemma op_end nl cx s v v1 s1 :
+  inv nl s v -> vstep cx v OEnd = Some v1 -> handle_opcode cx s v1 (v_reachability v) OEnd = Some s1 ->
+  exists locs bp', c_bp s = JUnknown locs None :: bp' /\ c_bp s1 = bp' /\ c_stack s = [] /\ c_stack s1 = []
+  /\ c_next s1 = c_next s /\ c_consts s1 = c_consts s /\ c_last s1 = None /\ cur_off s1 = cur_off s /\ ext s s1
+  /\ (forall loc, In loc locs -> resolved s1 loc (cur_off s)) /\ inv nl s1 v1 /\ v_unreach v1 = None.
+Proof.
+  intros I Hv Hh. destruct I as [W B L Fr Md].
+  cbn [vstep] in Hv. destruct (v_pop_ctrl v) as [[[res isif] v2]|] eqn:Ep; [|discriminate].
+  destruct (v_ctrls v) as [|f r] eqn:Ec; [unfold v_pop_ctrl in Ep; rewrite Ec in Ep; discriminate|].
+  destruct (pop_ctrl_inv v f r (c_bp s) Md Ec Fr _ Ep) as [E0 Ex]. inversion Ex; subst res isif v2; clear Ex.
+  cbn [bt_arity v_pushn] in Hv. inversion Hv; subst v1; clear Hv.
+  destruct (frames_cons _ _ _ Fr) as (_ & _ & _ & locs & bp' & Ebp & Fr' & _).
+  rewrite (handle_end cx s _ _ locs bp' (mode_reach v Md) Ebp) in Hh. cbv zeta in Hh. apply checked2 in Hh.
+  destruct Hh as [Hs1 _]. symmetry in Hs1.
+  destruct (end_patch s locs bp' s1 B Ebp Hs1) as (A1 & A2 & A3 & A4 & A5 & A6 & A7 & A8 & A9 & A10).
+  assert (Est : c_stack s = []) by (destruct (c_stack s); [reflexivity|cbn in L; lia]).
+  exists locs, bp'. splits; auto; try congruence.
+  constructor; cbn [v_opds v_ctrls v_unreach]; auto.
+  - eapply cwf_same; [|exact W]. unfold same_alloc. auto.
+  - rewrite A2, Est. reflexivity.
+  - rewrite A1. exact Fr'.
+  - left. reflexivity.
+Qed.
+
+(** *** br / br_if to a result-less label *)
+Lemma frames_mark f r bp : Forall2 frame_ok (f :: r) bp ->
+  Forall2 frame_ok ({| vf_is_if := vf_is_if f; vf_label := vf_label f; vf_end := vf_end f; vf_height := vf_height f;
+                       vf_unreachable := true |} :: r) bp.
+Proof. intros H. inversion H as [|? j ? bp' (A & B & C & D) Fr']; subst. constructor; auto. repeat split; auto. Qed.
+
+Lemma op_br nl cx s v v1 s1 k :
+  inv nl s v -> v_unreach v = None ->
+  vstep cx v (OBasic (BBr k)) = Some v1 -> handle_opcode cx s v1 Reachable (OBasic (BBr k)) = Some s1 ->
+  exists locs, nth_error (c_bp s) k = Some (JUnknown locs None)
+  /\ c_out s1 = c_out s ++ IBr :: u32_bytes 0
+  /\ c_bp s1 = update_nth (c_bp s) k (JUnknown (locs ++ [cur_off s + 1]) None)
+  /\ c_stack s1 = [] /\ c_next s1 = c_next s /\ c_consts s1 = c_consts s /\ c_last s1 = None
+  /\ inv nl s1 v1 /\ v_unreach v1 <> None /\ ext s s1.
+Proof.
+  intros I Hu Hv Hh. destruct I as [W B L Fr Md].
+  cbn [vstep] in Hv. unfold label_type in Hv. destruct (nth_error (v_ctrls v) k) as [fk|] eqn:Ek; [|discriminate].
+  destruct (frames_nth _ _ k fk Fr Ek) as (Fl & locs & Enth). rewrite Fl in Hv. cbn [bt_arity v_popn] in Hv.
+  unfold v_mark_unreachable in Hv. destruct (v_ctrls v) as [|f r] eqn:Ec; [discriminate|]. rewrite Hu in Hv.
+  inversion Hv; subst v1; clear Hv. destruct (frames_cons _ _ _ Fr) as (Fh & _).
+  unfold handle_opcode in Hh. cbv beta iota zeta in Hh. apply checked in Hh. destruct Hh as [Hh Hl].
+  cbn [v_opds] in Hh, Hl.
+  unfold push_br_jump in Hh. cbn [set_last c_bp] in Hh. rewrite Enth in Hh.
+  unfold insert_jump_location in Hh. cbn [push_op emit set_out c_bp set_last] in Hh. rewrite Enth in Hh.
+  set (s2 := emit _ (u32_bytes 0)) in Hh.
+  assert (W2 : cwf nl s2) by (eapply cwf_same; [|exact W]; unfold same_alloc; cbn; tauto).
+  unfold truncate in Hh.
+  destruct (truncate_n_spec nl _ s2 s1 Hh W2) as ((O1 & O2 & O3) & En & Ecs & W1 & Ln).
+  assert (S1 : c_out s2 = c_out s ++ IBr :: u32_bytes 0) by (subst s2; cbn; rewrite <- app_assoc; reflexivity).
+  assert (S2 : c_bp s2 = update_nth (c_bp s) k (JUnknown (locs ++ [cur_off s + 1]) None)).
+  { subst s2. cbn [emit set_out set_bp c_bp push_op set_last]. do 4 f_equal. unfold cur_off. cbn [c_out emit set_out push_op set_last]. rewrite app_length. cbn [length]. lia. }
+  assert (S3 : c_last s2 = None) by reflexivity.
+  assert (S4 : c_next s2 = c_next s) by reflexivity.
+  assert (S5 : c_consts s2 = c_consts s) by reflexivity.
+  rewrite S1 in O1. rewrite S2 in O2. rewrite S3 in O3. rewrite S4 in En. rewrite S5 in Ecs. clearbody s2.
+  assert (Est : c_stack s1 = []) by (destruct (c_stack s1); [reflexivity|cbn in Hl; rewrite Fh in Hl; discriminate]).
+  destruct (all_locs_update (c_bp s) k locs None (cur_off s + 1) Enth) as (A & Bl & EA & EB). rewrite <- O2 in EB.
+  assert (Ecur : cur_off s1 = cur_off s + 5).
+  { unfold cur_off. rewrite O1, app_length. cbn [length]. rewrite u32_bytes_length. lia. }
+  exists locs. splits; auto.
+  - constructor; cbn [v_opds v_ctrls v_unreach]; auto.
+    + eapply (bpwf_add s s1 (cur_off s + 1) A Bl); auto; lia.
+    + rewrite O2. apply frames_mark. apply frames_update. exact Fr.
+    + right. cbn [v_unreach v_ctrls v_opds length]. splits; auto; try discriminate. f_equal. lia.
+  - cbn. discriminate.
+  - eapply (ext_add s s1 _ (cur_off s + 1) A Bl); eauto. lia.
+Qed.
+
+Lemma op_br_if nl cx s v v1 s1 k :
+  inv nl s v -> v_unreach v = None ->
+  vstep cx v (OBasic (BBrIf k)) = Some v1 -> handle_opcode cx s v1 Reachable (OBasic (BBrIf k)) = Some s1 ->
+  exists p rest locs, c_stack s = p :: rest /\ pwf nl s p /\ nth_error (c_bp s) k = Some (JUnknown locs None)
+  /\ c_out s1 = c_out s ++ IBrIf :: u32_bytes 0 ++ i32_bytes (provider_idx p)
+  /\ c_bp s1 = update_nth (c_bp s) k (JUnknown (locs ++ [cur_off s + 1]) None)
+  /\ c_stack s1 = rest /\ c_next s1 = c_next s /\ c_consts s1 = c_consts s /\ c_last s1 = None
+  /\ inv nl s1 v1 /\ v_unreach v1 = None /\ ext s s1.
+Proof.
+  intros I Hu Hv Hh. destruct I as [W B L Fr Md].
+  cbn [vstep] in Hv. unfold label_type in Hv. destruct (nth_error (v_ctrls v) k) as [fk|] eqn:Ek; [|discriminate].
+  destruct (frames_nth _ _ k fk Fr Ek) as (Fl & locs & Enth). rewrite Fl in Hv.
+  destruct (v_pop v) as [v2|] eqn:Epop; [|discriminate]. cbn [bt_arity v_popn v_pushn] in Hv. inversion Hv; subst v2; clear Hv.
+  unfold handle_opcode in Hh. cbv beta iota zeta in Hh. apply checked in Hh. destruct Hh as [Hh Hl].
+  assert (W0 : cwf nl (set_last s None)) by (eapply cwf_same; [|exact W]; unfold same_alloc; cbn; tauto).
+  destruct (consume (set_last s None)) as [[p s2]|] eqn:Econs; [|discriminate].
+  destruct (consume_spec nl _ p s2 Econs W0) as (Es & (O1 & O2 & O3) & En & Ecs & W2 & Pp).
+  cbn [set_last c_out c_bp c_stack c_next c_reuse c_consts c_last] in Es, O1, O2, O3, En, Ecs.
+  unfold push_br_if_jump in Hh. rewrite O2, Enth in Hh.
+  unfold insert_jump_location in Hh. change (c_bp (push_op s2 IBrIf)) with (c_bp s2) in Hh. rewrite O2, Enth in Hh.
+  assert (Eco : cur_off (push_op s2 IBrIf) = cur_off s + 1).
+  { unfold cur_off, push_op, emit. cbn [set_out c_out]. rewrite O1, app_length. cbn [length]. lia. }
+  rewrite Eco in Hh. injection Hh as Hs1.
+  assert (F1 : c_out s1 = c_out s ++ IBrIf :: u32_bytes 0 ++ i32_bytes (provider_idx p)).
+  { subst s1. cbn [push_loc emit set_out set_bp c_out push_op]. rewrite O1, <- !app_assoc. reflexivity. }
+  assert (F2 : c_bp s1 = update_nth (c_bp s) k (JUnknown (locs ++ [cur_off s + 1]) None)) by (subst s1; reflexivity).
+  assert (F3 : c_stack s1 = c_stack s2) by (subst s1; reflexivity).
+  assert (F4 : c_next s1 = c_next s2) by (subst s1; reflexivity).
+  assert (F5 : c_consts s1 = c_consts s2) by (subst s1; reflexivity).
+  assert (F6 : c_last s1 = c_last s2) by (subst s1; reflexivity).
+  assert (F7 : c_reuse s1 = c_reuse s2) by (subst s1; reflexivity).
+  clear Hs1.
+  destruct (all_locs_update (c_bp s) k locs None (cur_off s + 1) Enth) as (A & Bl & EA & EB). rewrite <- F2 in EB.
+  assert (Ecur : cur_off s1 = cur_off s + 9).
+  { unfold cur_off. rewrite F1, app_length. cbn [length]. rewrite app_length, u32_bytes_length, i32_bytes_length. lia. }
+  (* the validation state *)
+  assert (Ev : v_unreach v1 = None /\ v_ctrls v1 = v_ctrls v /\ vmode v1).
+  { unfold v_pop in Epop. destruct (v_ctrls v) as [|f r] eqn:Ec; [discriminate|].
+    destruct (v_opds v =? vf_height f)%nat; [destruct (vf_unreachable f); [|discriminate]|];
+      inversion Epop; subst v1; cbn; rewrite ?Ec; splits; auto; left; auto. }
+  destruct Ev as (Ev1 & Ev2 & Ev3).
+  exists p, (c_stack s2), locs. splits; auto; try congruence.
+  - constructor; auto.
+    + eapply cwf_same; [|exact W2]. unfold same_alloc; auto.
+    + eapply (bpwf_add s s1 (cur_off s + 1) A Bl); auto; lia.
+    + rewrite Ev2, F2. apply frames_update. exact Fr.
+  - eapply (ext_add s s1 _ (cur_off s + 1) A Bl); eauto. lia.
+Qed.
+
+(** *** else *)
+Lemma overwrite_app : forall (a b : list N) pos bs, (pos + length bs <= length a)%nat ->
+  overwrite (a ++ b) pos bs = overwrite a pos bs ++ b.
+Proof.
+  induction a as [|x a IH]; intros b pos bs H.
+  - cbn in H. assert (pos = O) by lia. assert (length bs = O) by lia. destruct bs; [|discriminate]. subst. cbn.
+    destruct b; reflexivity.
+  - destruct pos as [|pos]; cbn [overwrite app].
+    + rewrite <- app_assoc. f_equal. change (x :: a ++ b) with ((x :: a) ++ b). rewrite skipn_app.
+      replace (length bs - length (x :: a))%nat with O by lia. cbn [skipn]. reflexivity.
+    + f_equal. apply IH. cbn in H. lia.
+Qed.
+
+Lemma handle_else cx s v reach locs bp' :
+  reach = Reachable \/ reach = UnreachableInstruction -> c_bp s = JUnknown locs None :: bp' ->
+  handle_opcode cx s v reach OElse =
+  let s1 := emit (set_bp (push_op (set_last s None) IBr) (JUnknown (locs ++ [cur_off s + 1]) None :: bp')) (u32_bytes 0) in
+  let r := match locs ++ [cur_off s + 1] with
+           | first :: rest => Some (back_patch (set_bp s1 (JUnknown rest None :: bp')) first (cur_off s + 5))
+           | [] => None
+           end in
+  match r with Some s' => if (length (c_stack s') =? v_opds v)%nat then Some s' else None | None => None end.
+Proof.
+  assert (E1 : cur_off (push_op (set_last s None) IBr) = cur_off s + 1).
+  { unfold cur_off. cbn. rewrite app_length. cbn. lia. }
+  assert (E2 : forall A, cur_off (emit (set_bp (push_op (set_last s None) IBr) A) (u32_bytes 0)) = cur_off s + 5).
+  { intros A. unfold cur_off. cbn [emit set_out set_bp push_op set_last c_out]. rewrite !app_length, u32_bytes_length. cbn [length]. lia. }
+  intros [->| ->] E; unfold handle_opcode; cbv beta iota zeta; unfold push_br_jump; cbn [set_last c_bp nth_error]; rewrite E;
+    unfold insert_jump_location; cbn [push_op emit set_out c_bp set_last nth_error]; rewrite E;
+    fold (push_op (set_last s None) IBr); rewrite E1;
+    cbn [emit set_out set_bp c_bp update_nth];
+    destruct (locs ++ [cur_off s + 1]) as [|first rest] eqn:El; try reflexivity; rewrite E2; reflexivity.
+Qed.
+
+Lemma bpwf_remove s s' first R :
+  bpwf s -> all_locs (c_bp s) = first :: R -> all_locs (c_bp s') = R -> cur_off s <= cur_off s' -> bpwf s'.
+Proof.
+  intros [W1 W2 W3] E E' Hle. rewrite E in *. constructor; rewrite E'.
+  - intros loc Hl. destruct (W1 loc (or_intror Hl)). lia.
+  - intros a b Ha Hb. apply W2; right; auto.
+  - inversion W3; auto.
+Qed.
+
+Lemma op_else nl cx s v v1 s1 :
+  inv nl s v -> vstep cx v OElse = Some v1 -> handle_opcode cx s v1 (v_reachability v) OElse = Some s1 ->
+  exists first more bp' pre,
+    c_bp s = JUnknown (first :: more) None :: bp' /\ c_bp s1 = JUnknown (more ++ [cur_off s + 1]) None :: bp'
+    /\ length pre = length (c_out s) /\ c_out s1 = pre ++ IBr :: u32_bytes 0
+    /\ c_stack s = [] /\ c_stack s1 = [] /\ c_next s1 = c_next s /\ c_consts s1 = c_consts s /\ c_last s1 = None
+    /\ ext s s1 /\ resolved s1 first (cur_off s + 5) /\ inv nl s1 v1 /\ v_unreach v1 = None.
+Proof.
+  intros I Hv Hh. destruct I as [W B L Fr Md].
+  cbn [vstep] in Hv. destruct (v_pop_ctrl v) as [[[res isif] v2]|] eqn:Ep; [|discriminate].
+  destruct (v_ctrls v) as [|f r] eqn:Ec; [unfold v_pop_ctrl in Ep; rewrite Ec in Ep; discriminate|].
+  destruct (pop_ctrl_inv v f r (c_bp s) Md Ec Fr _ Ep) as [E0 Ex]. inversion Ex; subst res isif v2; clear Ex.
+  destruct (vf_is_if f) eqn:Eif; [|discriminate]. inversion Hv; subst v1; clear Hv.
+  destruct (frames_cons _ _ _ Fr) as (_ & _ & _ & locs & bp' & Ebp & Fr' & Hne).
+  destruct locs as [|first more]; [exfalso; apply (Hne Eif); reflexivity|].
+  rewrite (handle_else cx s _ _ (first :: more) bp' (mode_reach v Md) Ebp) in Hh. cbv zeta in Hh.
+  cbn [app] in Hh. apply checked2 in Hh. destruct Hh as [Hs1 _].
+  assert (Est : c_stack s = []) by (destruct (c_stack s); [reflexivity|cbn in L; lia]).
+  assert (Hall : all_locs (c_bp s) = first :: more ++ all_locs bp') by (rewrite Ebp; reflexivity).
+  destruct (bw_range _ B first) as [Hf0 Hf1]; [rewrite Hall; left; reflexivity|].
+  assert (Hfl : (Z.to_nat first + 4 <= length (c_out s))%nat) by (unfold cur_off in Hf1; lia).
+  set (pre := overwrite (c_out s) (Z.to_nat first) (u32_bytes (cur_off s + 5))).
+  assert (Lpre : length pre = length (c_out s)) by (apply overwrite_length; rewrite u32_bytes_length; exact Hfl).
+  assert (F1 : c_out s1 = pre ++ IBr :: u32_bytes 0).
+  { subst s1. cbn [back_patch set_out set_bp emit push_op set_last c_out]. rewrite <- app_assoc. cbn [app].
+    apply overwrite_app. rewrite u32_bytes_length. exact Hfl. }
+  assert (F2 : c_bp s1 = JUnknown (more ++ [cur_off s + 1]) None :: bp') by (subst s1; reflexivity).
+  assert (F3 : c_stack s1 = c_stack s) by (subst s1; reflexivity).
+  assert (F4 : c_next s1 = c_next s) by (subst s1; reflexivity).
+  assert (F5 : c_consts s1 = c_consts s) by (subst s1; reflexivity).
+  assert (F6 : c_last s1 = None) by (subst s1; reflexivity).
+  assert (F7 : c_reuse s1 = c_reuse s) by (subst s1; reflexivity).
+  clear Hs1.
+  assert (Ecur : cur_off s1 = cur_off s + 5).
+  { unfold cur_off. rewrite F1, app_length, Lpre. cbn [length]. rewrite u32_bytes_length. lia. }
+  (* intermediate state without [first] *)
+  set (sm := set_bp s (JUnknown more None :: bp')).
+  assert (Bm : bpwf sm).
+  { eapply (bpwf_remove s sm first _ B Hall); [reflexivity|unfold sm, cur_off; cbn; lia]. }
+  assert (Hall1 : all_locs (c_bp s1) = more ++ (cur_off s + 1) :: all_locs bp').
+  { rewrite F2. cbn [all_locs flat_map locs_of]. rewrite <- app_assoc. reflexivity. }
+  assert (B1 : bpwf s1).
+  { eapply (bpwf_add sm s1 (cur_off s + 1) more (all_locs bp')); auto; try reflexivity.
+    - change (cur_off sm) with (cur_off s). lia.
+    - lia.
+    - change (cur_off sm) with (cur_off s). lia. }
+  assert (Hin1 : forall y, In y (all_locs (c_bp s1)) -> y = cur_off s + 1 \/ (In y (all_locs (c_bp s)) /\ y <> first)).
+  { intros y Hy. rewrite Hall1 in Hy. apply in_app_iff in Hy. cbn in Hy.
+    pose proof (bw_nodup _ B) as Hnd. rewrite Hall in Hnd. inversion Hnd as [|? ? Hnf _]; subst.
+    assert (In y (more ++ all_locs bp') -> In y (all_locs (c_bp s)) /\ y <> first).
+    { intros Hy'. split; [rewrite Hall; right; exact Hy'|intros ->; contradiction]. }
+    destruct Hy as [Hy|[Hy|Hy]]; auto; right; apply H; apply in_or_app; auto. }
+  exists first, more, bp', pre. splits; auto; try congruence.
+  - (* ext *)
+    split; [rewrite F1, app_length, Lpre; lia|]. intros p Hp Hn. split.
+    + rewrite F1, app_nth1 by lia. apply nth_overwrite_other. rewrite u32_bytes_length.
+      destruct (Nat.lt_ge_cases p (Z.to_nat first)) as [|Hge]; [left; exact H|right].
+      destruct (Nat.le_gt_cases (Z.to_nat first + 4) p) as [|Hlt]; [exact H|exfalso].
+      apply Hn. exists first. split; [rewrite Hall; left; reflexivity|unfold in_win; lia].
+    + intros (y & Hy & Hw). destruct (Hin1 y Hy) as [->|[Hy' _]].
+      * unfold in_win, cur_off in Hw. lia.
+      * apply Hn. exists y. auto.
+  - (* resolved *)
+    split; [exact Hf0|]. split; [rewrite F1, app_length; lia|]. intros j Hj. split.
+    + rewrite F1, app_nth1 by lia. unfold pre. rewrite nth_overwrite_in; rewrite ?u32_bytes_length; try lia. f_equal. lia.
+    + intros (y & Hy & Hw). destruct (Hin1 y Hy) as [->|[Hy' Hne']].
+      * unfold in_win, cur_off in *. lia.
+      * assert (Hfi : In first (all_locs (c_bp s))) by (rewrite Hall; left; reflexivity).
+        destruct (bw_sep _ B first y Hfi Hy') as [E|Hs]; [congruence|]. unfold in_win in Hw. lia.
+  - constructor; cbn [v_push_ctrl v_opds v_ctrls v_unreach]; auto.
+    + eapply cwf_same; [|exact W]. unfold same_alloc. auto.
+    + rewrite F3, Est. reflexivity.
+    + rewrite F2. constructor; [|exact Fr']. repeat split; cbn; auto. eexists; split; [reflexivity|discriminate].
+    + left. reflexivity.
 Qed.
